@@ -22,8 +22,8 @@ def init (dflt : Int) (cb : Option Nat) (now : Int) : St K V := { items := [], n
 the second component says whether the janitor goroutine is started (`cfg.CleanupInterval > 0`). -/
 def newXsyncMap (cfg : Option Gen.Config) (cbid : Option Nat) (now : Int) : St K V × Bool :=
   let c := Gen.configDefault cfg
-  ({ items := [], now := now, dflt := c.defaultExpiration, cb := if c.hasCallback then cbid else none },
-   decide (c.cleanupInterval > 0))
+  ({ items := [], now := now, dflt := Gen.newXsyncMap_dflt c, cb := if Gen.newXsyncMap_hasCb c then cbid else none },
+   Gen.newXsyncMap_janitor c)
 
 /-- the public constructors (`cache.go`) -/
 inductive Ctor where
@@ -35,14 +35,15 @@ inductive Ctor where
 def construct (c : Ctor) (now : Int) : St K V × Bool :=
   match c with
   | .newOpts dflt cleanup cb mincap =>
-    let cfg := Gen.DefaultConfig_
-    let cfg := match dflt with | some d => { cfg with defaultExpiration := d } | none => cfg
-    let cfg := match cleanup with | some i => { cfg with cleanupInterval := i } | none => cfg
-    let cfg := match cb with | some _ => { cfg with hasCallback := true } | none => cfg
-    let cfg := match mincap with | some m => { cfg with minCapacity := m } | none => cfg
-    newXsyncMap (some cfg) cb now
+    -- `New(opts...)` with the options that are present (each sets one field; machine-translated `With*`, `New`)
+    let opts : List (Gen.Config → Gen.Config) :=
+      (match dflt with | some d => [Gen.WithDefaultExpiration d] | none => []) ++
+      (match cleanup with | some i => [Gen.WithCleanupInterval i] | none => []) ++
+      (match cb with | some _ => [Gen.WithEvictedCallback true] | none => []) ++
+      (match mincap with | some m => [Gen.WithMinCapacity m] | none => [])
+    newXsyncMap (some (Gen.New_cfg opts)) cb now
   | .newDefault dflt cleanup cb =>
-    newXsyncMap (some { defaultExpiration := dflt, cleanupInterval := cleanup, minCapacity := 0, hasCallback := cb.isSome }) cb now
+    newXsyncMap (some (Gen.NewDefault_cfg dflt cleanup cb.isSome)) cb now
 
 /-- `i.expired()` -/
 def expired (s : St K V) (i : Item V) : Bool := Gen.item_expired i.e s.now
